@@ -2,6 +2,7 @@ package main
 
 import (
 	"fmt"
+	"go/types"
 
 	"golang.org/x/tools/go/ssa"
 )
@@ -12,57 +13,74 @@ func ruleC03Filter(cx *Ctx) {
 	const rule = "C03.filter"
 	cx.R.Rule(rule, 1, "nodes enumerated by the iterators (table range, eviction order) reach a yield / nodeToEntry only on the edge where IsAlive() is true and HasExpired(now) is false for that node, with now sampled in that iteration")
 	n2e := cx.P.Func("", "cache", "nodeToEntry")
-	for _, name := range []string{"nodes", "evictionOrder"} {
-		root := cx.need(rule, "", "cache", name)
-		if root == nil {
-			continue
+	eo := cx.need(rule, "", "cache", "evictionOrder")
+	if cx.need(rule, "", "cache", "nodes") == nil || eo == nil {
+		return
+	}
+	check := func(f *ssa.Function, c *ssa.Call, node ssa.Value) {
+		if p, isParam := node.(*ssa.Parameter); isParam && rangesOverNodes(cx, f, p) {
+			cx.R.OK(rule, funcName(f), "sink fed by the filtered iterator", cx.P.where(c), "the node comes from ranging over cache.nodes(), which filters (checked at its own sink)")
+			return
 		}
-		found := 0
-		withClosures(root, func(f *ssa.Function) {
-			allInstrs(f, func(in ssa.Instruction) {
-				c, ok := in.(*ssa.Call)
-				if !ok {
-					return
-				}
-				var node ssa.Value
-				switch {
-				case n2e != nil && isCallTo(c, n2e) && name == "evictionOrder":
-					node = callArgs(c)[0]
-				case name == "nodes" && !c.Call.IsInvoke() && c.Call.StaticCallee() == nil && len(c.Call.Args) == 1 && isNodeType(c.Call.Args[0].Type()):
-					node = c.Call.Args[0]
-				default:
-					return
-				}
-				found++
-				if p, isParam := node.(*ssa.Parameter); isParam && rangesOverNodes(cx, f, p) {
-					cx.R.OK(rule, funcName(f), "sink fed by the filtered iterator", cx.P.where(c), "the node comes from ranging over cache.nodes(), which filters (checked at its own sink)")
-					return
-				}
-				alive, unexpired := false, false
-				var nowArg ssa.Value
-				for _, g := range guardsAt(c.Block()) {
-					gc, ok := g.Cond.(*ssa.Call)
-					if !ok || gc.Call.Value != node {
-						continue
-					}
-					if invokeName(gc) == "IsAlive" && g.Truth {
-						alive = true
-					}
-					if invokeName(gc) == "HasExpired" && !g.Truth {
-						unexpired = true
-						nowArg = gc.Call.Args[0]
-					}
-				}
-				cx.R.Check(alive && unexpired, rule, funcName(f), "sink guarded", cx.P.where(c), fmt.Sprintf("the node reaches the API only when alive (%v) and unexpired (%v)", alive, unexpired))
-				if nowArg != nil {
-					nc, isCall := nowArg.(*ssa.Call)
-					cx.R.Check(isCall && invokeName(nc) == "NowNano" && nc.Parent() == f, rule, funcName(f), "fresh clock", cx.P.where(c), "expiry is tested against a clock sample taken inside the iteration (long iterations do not use a stale time)")
-				}
-			})
+		alive, unexpired := false, false
+		var nowArg ssa.Value
+		for _, g := range guardsAt(c.Block()) {
+			gc, ok := g.Cond.(*ssa.Call)
+			if !ok || gc.Call.Value != node {
+				continue
+			}
+			if invokeName(gc) == "IsAlive" && g.Truth {
+				alive = true
+			}
+			if invokeName(gc) == "HasExpired" && !g.Truth {
+				unexpired = true
+				nowArg = gc.Call.Args[0]
+			}
+		}
+		cx.R.Check(alive && unexpired, rule, funcName(f), "sink guarded", cx.P.where(c), fmt.Sprintf("the node reaches the API only when alive (%v) and unexpired (%v)", alive, unexpired))
+		if nowArg != nil {
+			nc, isCall := nowArg.(*ssa.Call)
+			cx.R.Check(isCall && invokeName(nc) == "NowNano" && nc.Parent() == f, rule, funcName(f), "fresh clock", cx.P.where(c), "expiry is tested against a clock sample taken inside the iteration (long iterations do not use a stale time)")
+		}
+	}
+	// sink 1: a node handed to a caller-supplied yield function func(node) bool, wherever in the package that happens
+	// (iterator closure, named method of a visitor type, ...)
+	yields := 0
+	for _, f := range cx.P.FuncsOfPkg("") {
+		allInstrs(f, func(in ssa.Instruction) {
+			c, ok := in.(*ssa.Call)
+			if !ok || c.Call.IsInvoke() || c.Call.StaticCallee() != nil || len(c.Call.Args) != 1 || !isNodeType(c.Call.Args[0].Type()) {
+				return
+			}
+			if _, isClosure := c.Call.Value.(*ssa.MakeClosure); isClosure {
+				return
+			}
+			sig, ok := c.Call.Value.Type().Underlying().(*types.Signature)
+			if !ok || sig.Results().Len() != 1 {
+				return
+			}
+			if b, ok := sig.Results().At(0).Type().Underlying().(*types.Basic); !ok || b.Kind() != types.Bool {
+				return
+			}
+			yields++
+			check(f, c, c.Call.Args[0])
 		})
-		if found == 0 {
-			cx.R.Violate(rule, funcName(root), "sink", cx.P.Pos(root.Pos()), "NOT SATISFIED: the iterator no longer yields nodes / entries in a recognisable way")
-		}
+	}
+	if yields == 0 {
+		cx.R.Violate(rule, "(*cache).nodes", "sink", "-", "NOT SATISFIED: the iterator no longer yields nodes / entries in a recognisable way")
+	}
+	// sink 2: the ordered iterator converts nodes into entries
+	entries := 0
+	withClosures(eo, func(f *ssa.Function) {
+		allInstrs(f, func(in ssa.Instruction) {
+			if c, ok := in.(*ssa.Call); ok && n2e != nil && isCallTo(c, n2e) {
+				entries++
+				check(f, c, callArgs(c)[0])
+			}
+		})
+	})
+	if entries == 0 {
+		cx.R.Violate(rule, funcName(eo), "sink", cx.P.Pos(eo.Pos()), "NOT SATISFIED: the iterator no longer yields nodes / entries in a recognisable way")
 	}
 }
 
